@@ -70,16 +70,17 @@ func init() {
 				specs = append(specs, seqSpec{Cfg: cfg, Alpha: c03Alpha, Depth: d, Checks: "db,views"})
 			}
 			if c.Tier == "quick" {
-				add("flushy/bytewise", 4)
-				add("deep/bytewise", 4)
-				add("rot/bytewise", 3)
-				add("wide/bytewise", 3)
+				add("flushy/bytewise", 5)
+				add("deep/bytewise", 5)
+				add("rot/bytewise", 4)
+				add("wide/bytewise", 4)
+				add("tinycache/bytewise", 4)
 			} else {
-				add("flushy/bytewise", 6)
-				add("deep/bytewise", 6)
-				add("rot/bytewise", 5)
-				add("wide/bytewise", 5)
-				add("tinycache/bytewise", 5)
+				add("flushy/bytewise", 7)
+				add("deep/bytewise", 7)
+				add("rot/bytewise", 6)
+				add("wide/bytewise", 6)
+				add("tinycache/bytewise", 6)
 			}
 			runSpecs(c, "C03", specs,
 				"breadth-first search over sequences of writes, deletes, batch, CompactRange, Quiesce, Reopen, snapshot take/release (<=2 live), iterator create (on DB or on snapshot 0)/release (<=1 held); after every transition each live snapshot and the held iterator are read back completely and compared with the model copy taken when the view was created; the DB itself is compared with the current model",
